@@ -295,6 +295,8 @@ class Gen:
 
     def out_expr(self, env: dict[str, str], loop: bool) -> Any:
         r = self.r
+        if not self.p.captures_inspected and r.random() < 0.12:
+            return M.Filt(M.Var(r.choice(["cap1", "cap2"])))  # printed as is, never inspected
         for _ in range(10):
             e = self.filtered(env, loop)
             if e is not None:
@@ -448,13 +450,14 @@ class Gen:
             env[name] = ty
             return M.Assign(name, e)
         if k == "capture":
-            name = self.name_for("str")
+            name = self.name_for("str") if self.p.captures_inspected else r.choice(["cap1", "cap2"])
             b = self.body(depth + 1, env, loop, isolated, n=r.randint(1, 3))
             if not any(isinstance(s, (M.Out, M.Text)) and (not isinstance(s, M.Text) or s.s.strip()) for s in b):
                 b.append(M.Out(M.Filt(self.lit("str"))))
                 if len(b) >= 2 and isinstance(b[-2], M.Out) is False and isinstance(b[-2], M.Text) is False:
                     pass
-            env[name] = "str" if self.p.captures_inspected else "captured"
+            if self.p.captures_inspected:
+                env[name] = "str"
             return M.Capture(name, b)
         if k == "incr":
             return (M.Incr if r.random() < 0.6 else M.Decr)(r.choice(["c1", "c2", "n"]))
